@@ -137,7 +137,15 @@ def check(run, replay_case=None):
             if 'panic' in r:
                 run.violation('followup-panic op=%s site=%s' % (w, r['panic']['site']), '%s panicked on an accepted schema: %s' % (w, r['panic']['msg'][:200]), c, observed=r['panic'])
             elif 'err' in r and w in ('json', 'resolved'):
-                run.violation('followup-error op=%s kind=%s' % (w, r['err']['kind']), '%s failed on an accepted schema' % w, c, observed=r)
+                kind = r['err']['kind']
+                if w == 'resolved' and kind == 'Unresolved-schema-reference':
+                    try:
+                        from .c10 import null_ns_nested
+                        if null_ns_nested(json.loads(c['text'])):
+                            kind += ' cause=null-namespace-lost'
+                    except ValueError:
+                        pass
+                run.violation('followup-error op=%s kind=%s' % (w, kind), '%s failed on an accepted schema' % w, c, observed=r)
         if info.get('self_eq', {}).get('ok') is False:
             run.violation('not-equal-to-itself', 'an accepted schema compares unequal to itself', c)
         d = info.get('dump', {}).get('ok')
